@@ -876,8 +876,77 @@ pub fn units() -> Vec<Unit> {
             Fn("Session::handle_downlink_macs"),
         ],
     },
+    // ---- builder T (tie A for `channel_mask_update` of the channel plans)
+    // C11 / C08: what a LinkADRReq's ChMaskCntl / ChMask does to the working copy of the mask, for the fixed plans
+    // (US915 / AU915: `FixedChannelPlan::channel_mask_update` with its helper `set_125k_channels`) and the dynamic
+    // plans (`DynamicChannelPlan::channel_mask_update`).  Neither method reads a field of the plan, so the plans are
+    // records without modelled fields.  The bit operations are those of `Gen.ChannelMaskFn` (regenerated from
+    // types.rs), reused — not emitted again.  Translated for real: the range pattern `0..=3`, the `for i in 0..8`
+    // loops over `set_bank` (`Rt.forRangeM`), `blocks & (1 << i) != 0`, the early `return None`.
+    Unit {
+        module: "Gen.PlanMaskFn",
+        file: "lorawan-device/src/region/fixed_channel_plans/mod.rs",
+        more_files: vec!["lorawan-device/src/region/dynamic_channel_plans/mod.rs", "lorawan-encoding/src/types.rs"],
+        imports: vec!["LoraVerif.Gen.ChannelMaskFn"],
+        items: vec![
+            ExternUnit("Gen.ChannelMaskFn"),
+            StructPartial("FixedChannelPlan", &[]),
+            StructPartial("DynamicChannelPlan", &[]),
+            Fn("FixedChannelPlan::set_125k_channels"),
+            TraitFn("RegionHandler", "FixedChannelPlan", "channel_mask_update"),
+            TraitFn("RegionHandler", "DynamicChannelPlan", "channel_mask_update"),
+        ],
+    },
+    // C05 / C10: the RF configuration of the receive windows — `Mac::build_rf_config` (the data-rate lookup with its
+    // fallback to the RX2 data rate and `unwrap`), `rx2_rf_config` (the overrides of RXParamSetupReq / the join accept),
+    // `get_rxc_config`.  Abstract: the region (a record of the four lookups the methods call).  Reused, not emitted
+    // again: `BaseBandModulationParams::new` (Gen.Modulation), `Datarate`, `DR`, `Window` (Gen.Region).
+    Unit {
+        module: "Gen.MacRfFn",
+        file: "lorawan-device/src/mac/mod.rs",
+        more_files: vec!["lorawan-device/src/radio.rs", "lorawan-device/src/region/mod.rs", "lorawan-device/src/region/constants.rs", "lorawan-encoding/src/types.rs"],
+        imports: vec!["LoraVerif.Gen.Modulation", "LoraVerif.Gen.Region"],
+        items: vec![
+            ExternUnit("Gen.Modulation"),
+            ExternUnit("Gen.Region"),
+            Struct("Configuration"),
+            Raw(MAC_RF_RAW),
+            ExternStructRaw("RegionCfg", &[]),
+            Alias("region::Configuration", "RegionCfg"),
+            ExternStructRaw("Mac", &[("configuration", "Configuration"), ("region", "region::Configuration")]),
+            ExternFn("RegionCfg::get_datarate", "RegionCfg.get_datarate", &[("self", "RegionCfg"), ("dr", "u8")], "Option<Datarate>"),
+            ExternFnX("RegionCfg::get_rx_datarate", "RegionCfg.get_rx_datarate", &[("self", "RegionCfg"), ("tx_dr", "DR"), ("rx1_dr_offset", "u8"), ("window", "Window")], "DR", &[], true),
+            ExternFn("RegionCfg::get_coding_rate", "RegionCfg.get_coding_rate", &[("self", "RegionCfg")], "CodingRate"),
+            ExternFn("RegionCfg::get_rx2_frequency", "RegionCfg.get_rx2_frequency", &[("self", "RegionCfg")], "u32"),
+            Struct("RfConfig"),
+            EnumData("RxMode"),
+            Struct("RxConfig"),
+            Fn("Mac::build_rf_config"),
+            Fn("Mac::rx2_rf_config"),
+            Fn("Mac::get_rxc_config"),
+            // both windows of an uplink, from the channel selection actually used (`region::TxChannel`, region/mod.rs)
+            Struct("TxChannel"),
+            Struct("RxWindows"),
+            Fn("Mac::rx_windows"),
+        ],
+    },
     ]
 }
+
+/// Lean text of the abstract part of `Gen.MacRfFn`
+const MAC_RF_RAW: &str = r#"/-- what the three methods observe of `region::Configuration`: the four lookups they call
+(`get_rx_datarate`: `none` = a panic inside the region's table lookup) -/
+structure RegionCfg where
+  get_datarate : Int → Option Datarate
+  get_rx_datarate : DR → Int → Window → Option DR
+  get_coding_rate : CodingRate
+  get_rx2_frequency : Int
+
+/-- the fields `configuration`, `region` of `Mac` (the others are not read) -/
+structure Mac where
+  configuration : Configuration
+  region : RegionCfg
+"#;
 
 /// Lean text of the abstract part of `Gen.SessionMacs`
 const SESSION_MACS_RAW1: &str = r#"/-- what `add_mac_command` observes of its `M: SerializableMacCommand` argument -/
